@@ -32,11 +32,52 @@ type Event struct {
 }
 
 type State struct {
+	subst  map[string]*Form // atoms fixed by an `atom == constant` path condition
 	mem    map[*Cell]Val
 	maps   map[*Cell][]mapEntry
 	conds  []*BoolVal
 	pos    map[*Stream]*Form
 	events []Event
+}
+
+// learn records `atom == constant` facts of a path condition.
+func (s *State) learn(c *BoolVal) {
+	if c == nil || c.Op != "==" {
+		return
+	}
+	a, ok1 := c.A.(*Form)
+	b, ok2 := c.B.(*Form)
+	if !ok1 || !ok2 {
+		return
+	}
+	if _, isC := a.Const(); isC {
+		a, b = b, a
+	}
+	an, isA := a.SingleAtom()
+	if _, isC := b.Const(); !isA || !isC {
+		return
+	}
+	if s.subst == nil {
+		s.subst = map[string]*Form{}
+	}
+	s.subst[an] = b
+}
+
+// resolve applies the learnt equalities to a form.
+func (s *State) resolve(f *Form) *Form {
+	if len(s.subst) == 0 || f == nil {
+		return f
+	}
+	hit := false
+	for a := range f.Atoms() {
+		if _, ok := s.subst[a]; ok {
+			hit = true
+		}
+	}
+	if !hit {
+		return f
+	}
+	return f.Subst(s.subst)
 }
 
 func newState() *State {
@@ -56,6 +97,12 @@ func (s *State) clone() *State {
 	}
 	n.conds = append([]*BoolVal(nil), s.conds...)
 	n.events = append([]Event(nil), s.events...)
+	if len(s.subst) > 0 {
+		n.subst = make(map[string]*Form, len(s.subst))
+		for k, v := range s.subst {
+			n.subst[k] = v
+		}
+	}
 	return n
 }
 
@@ -72,6 +119,7 @@ type frame struct {
 	env      map[ssa.Value]Val
 	bindings []Val
 	forks    map[*ssa.BasicBlock]int
+	visits   map[*ssa.BasicBlock]int
 	defers   []*ssa.Defer
 	stopAt   *ssa.BasicBlock
 }
@@ -83,6 +131,12 @@ func (f *frame) clone() *frame {
 	}
 	for k, v := range f.forks {
 		n.forks[k] = v
+	}
+	if len(f.visits) > 0 {
+		n.visits = make(map[*ssa.BasicBlock]int, len(f.visits))
+		for k, v := range f.visits {
+			n.visits[k] = v
+		}
 	}
 	n.defers = append([]*ssa.Defer(nil), f.defers...)
 	return n
@@ -103,6 +157,22 @@ type Engine struct {
 	MaxDepth  int
 	// FailReads explores the failure outcome of stream reads too.
 	FailReads bool
+	// MaxForks bounds how often the same symbolic branch may be forked on
+	// one path (1 = loops with symbolic conditions are not followed; k > 1
+	// explores up to k iterations of a parse loop and cuts the path off
+	// afterwards with outcome kind "cutoff").
+	MaxForks int
+	// MaxIter bounds the number of iterations of unconditional `for { }`
+	// loops (parse loops) on one path; further iterations end the path with
+	// outcome kind "cutoff".
+	MaxIter int
+	// Prune, when set, is asked at every symbolic fork whether the branch on
+	// which cond holds should be dropped (recorded as a "cutoff" outcome).
+	// Used to keep bounded explorations of parse loops focused.
+	Prune func(cond *BoolVal) bool
+	// SeqCalls makes results of the named uninterpreted calls distinct per
+	// call (stateful callees such as a segment reader).
+	SeqCalls func(fn string) bool
 	// GenericLoops summarises counting loops by one generic iteration even
 	// when their bounds are constants (used for the table builders).
 	GenericLoops bool
@@ -114,6 +184,7 @@ type Engine struct {
 	initVals  map[*ssa.Global]Val
 	initDone  map[*ssa.Package]bool
 	opaqueMem map[string]*Cell
+	constCells map[*Cell]Val
 	streams   int
 	loopWhy   string
 }
@@ -124,7 +195,7 @@ func NewEngine(p *Program) *Engine {
 		wb = 32
 	}
 	return &Engine{P: p, A: newAtoms(), WordBits: wb, MaxSteps: 3_000_000, MaxPaths: 5000, MaxDepth: 12,
-		globals: map[*ssa.Global]*Cell{}, initVals: map[*ssa.Global]Val{}, initDone: map[*ssa.Package]bool{}, opaqueMem: map[string]*Cell{}}
+		globals: map[*ssa.Global]*Cell{}, initVals: map[*ssa.Global]Val{}, initDone: map[*ssa.Package]bool{}, opaqueMem: map[string]*Cell{}, constCells: map[*Cell]Val{}}
 }
 
 func (e *Engine) newCell(name string, t types.Type) *Cell {
@@ -293,6 +364,10 @@ func (e *Engine) SymVal(name string, t types.Type) Val {
 
 func (e *Engine) cellVal(st *State, c *Cell) Val {
 	if v, ok := st.mem[c]; ok {
+		return v
+	}
+	if v, ok := e.constCells[c]; ok {
+		st.mem[c] = v
 		return v
 	}
 	var v Val
@@ -560,11 +635,29 @@ func (e *Engine) exec(st *State, fr *frame, b, pred *ssa.BasicBlock, idx, depth 
 					if outs, ok := e.summariseLoop(st, fr, b, in, c, depth); ok {
 						return outs
 					}
+					if e.MaxIter > 0 {
+						// a parse loop whose header tests a symbolic value: follow it for a bounded number of iterations
+						if fr.visits == nil {
+							fr.visits = map[*ssa.BasicBlock]int{}
+						}
+						fr.visits[b]++
+						if fr.visits[b] > e.MaxIter {
+							return []Outcome{{Kind: "cutoff", St: st, Why: "iteration bound reached", Pos: e.condPos(in)}}
+						}
+						goto plainFork
+					}
 					return e.stuck(st, "loop with the symbolic condition "+trunc(c.Key(), 100)+" cannot be summarised by one generic iteration: "+e.loopWhy, e.condPos(in))
 				}
+			plainFork:
 				fr.forks[b]++
 				if fr.forks[b] > 1 {
-					return e.stuck(st, "symbolic branch revisited (loop with a symbolic condition) "+c.Key(), e.condPos(in))
+					if e.MaxForks > 1 {
+						if fr.forks[b] > e.MaxForks {
+							return []Outcome{{Kind: "cutoff", St: st, Why: "iteration bound reached", Pos: e.condPos(in)}}
+						}
+					} else {
+						return e.stuck(st, "symbolic branch revisited (loop with a symbolic condition) "+trunc(c.Key(), 100), e.condPos(in))
+					}
 				}
 				e.paths++
 				if e.paths > e.MaxPaths {
@@ -574,8 +667,19 @@ func (e *Engine) exec(st *State, fr *frame, b, pred *ssa.BasicBlock, idx, depth 
 				fr2 := fr.clone()
 				st.conds = append(st.conds, c)
 				st2.conds = append(st2.conds, c.Not())
-				outs := e.exec(st, fr, b.Succs[0], b, 0, depth)
-				outs = append(outs, e.exec(st2, fr2, b.Succs[1], b, 0, depth)...)
+				st.learn(c)
+				st2.learn(c.Not())
+				var outs []Outcome
+				if e.Prune != nil && e.Prune(c) {
+					outs = append(outs, Outcome{Kind: "cutoff", St: st, Why: "pruned", Pos: e.condPos(in)})
+				} else {
+					outs = e.exec(st, fr, b.Succs[0], b, 0, depth)
+				}
+				if e.Prune != nil && e.Prune(c.Not()) {
+					outs = append(outs, Outcome{Kind: "cutoff", St: st2, Why: "pruned", Pos: e.condPos(in)})
+				} else {
+					outs = append(outs, e.exec(st2, fr2, b.Succs[1], b, 0, depth)...)
+				}
 				return outs
 			case *ssa.Return:
 				var ret Val
@@ -652,6 +756,17 @@ func (e *Engine) exec(st *State, fr *frame, b, pred *ssa.BasicBlock, idx, depth 
 		}
 		if next == fr.stopAt {
 			return []Outcome{{Kind: "loopback", St: st}}
+		}
+		if e.MaxIter > 0 && next.Dominates(b) && isLoopHeader(next) {
+			if _, isIf := next.Instrs[len(next.Instrs)-1].(*ssa.If); !isIf {
+				if fr.visits == nil {
+					fr.visits = map[*ssa.BasicBlock]int{}
+				}
+				fr.visits[next]++
+				if fr.visits[next] >= e.MaxIter {
+					return []Outcome{{Kind: "cutoff", St: st, Why: "iteration bound reached", Pos: e.instrPos(next.Instrs[0])}}
+				}
+			}
 		}
 		pred, b, idx = b, next, 0
 	}
@@ -1171,6 +1286,10 @@ func (e *Engine) compare(op token.Token, x, y Val, xt types.Type) (Val, string) 
 		}
 		return &BoolVal{Op: ops, A: x, B: y}, ""
 	case *ErrVal:
+		if b, ok := y.(*Opaque); ok && a.IsNil && b.Key != "nil" && (strings.Contains(b.Key, "Err") || strings.Contains(b.Key, "EOF")) {
+			// a nil error never equals a sentinel error variable
+			return boolConst(op == token.NEQ), ""
+		}
 		if b, ok := y.(*ErrVal); ok {
 			if a.IsNil && b.IsNil {
 				return boolConst(op == token.EQL), ""
@@ -1329,6 +1448,20 @@ func (e *Engine) convert(x Val, from, to types.Type) (Val, string) {
 			return e.wrapInt(formRat(new(big.Rat).SetInt(n)), tw, tsigned, true), ""
 		}
 		return e.A.App("trunc:"+typeString(to), to, f), ""
+	}
+	// []byte("constant"): a slice over a fresh array of known bytes
+	if sv, ok := x.(*StrVal); ok {
+		if sl, ok := to.Underlying().(*types.Slice); ok {
+			if b, ok := sl.Elem().Underlying().(*types.Basic); ok && b.Kind() == types.Uint8 && len(sv.S) <= 256 {
+				c := e.newCell("bytes", types.NewArray(sl.Elem(), int64(len(sv.S))))
+				a := &Agg{Type: c.Type, Elems: make([]Val, len(sv.S))}
+				for i := range a.Elems {
+					a.Elems[i] = formInt(int64(sv.S[i]))
+				}
+				e.constCells[c] = a
+				return &SliceVal{Arr: &Ptr{Cell: c}, Lo: formInt(0), Len: formInt(int64(len(sv.S))), Elem: sl.Elem()}, ""
+			}
+		}
 	}
 	// string / byte-slice conversions and everything else
 	return e.appOfType("convert:"+typeString(to), to, x), ""
